@@ -188,7 +188,8 @@ Record obs := mkObs {
   o_updates : list row;        (* update CUD rows read back from the PLog, ascending ID *)
   o_recs : list row }.         (* IRecords.Get of every created row right after the event *)
 
-Inductive op := OEvent (ws : N) (ev : event) (o : obs) | ORestart.
+(* OEventV2: the same event sent through an APIv2 path of the command processor (camel-cased reply) *)
+Inductive op := OEvent (ws : N) (ev : event) (o : obs) | ORestart | OEventV2 (ws : N) (ev : event) (o : obs).
 Definition trace := list op.
 
 Definition row_eqb (a b : row) : bool :=
@@ -203,14 +204,25 @@ Fixpoint insert_pair (x : N * N) (l : list (N * N)) : list (N * N) :=
   end.
 Definition sort_pairs (l : list (N * N)) : list (N * N) := fold_right insert_pair [] l.
 
+(* sendResponse re-encodes the reply of the APIv2 paths through map[string]interface{}: unless the decoder keeps numbers
+   exact (c04_apiv2_reply_exact), every number goes through float64 - round to nearest, ties to even, 53-bit mantissa *)
+Definition f64_round (x : N) : N :=
+  if x <? 9007199254740992 then x
+  else
+    let e := N.log2 x - 52 in
+    let q := N.shiftr x e in
+    let r := x - N.shiftl q e in
+    let half := N.shiftl 1 (e - 1) in
+    let q' := if (half <? r) || ((r =? half) && N.odd q) then q + 1 else q in
+    N.shiftl q' e.
+Definition apiv2_number (x : N) : N := if c04_apiv2_reply_exact then x else f64_round x.
+
 (* agrees: replay the inputs on the implementation model, compare every observable *)
-Fixpoint agrees_from (st : state) (t : trace) : bool :=
-  match t with
-  | [] => true
-  | ORestart :: rest => agrees_from (step_gen c04_arg_updates_on_sync c04_plans_shared st IRestart) rest
-  | OEvent ws ev o :: rest =>
-      let '(w', r) := step_event (st ws) ev in
-      (match r with
+(* one event: [enc] = what the reply's encoding preserves of a storage ID (the reply prints a float64 with the shortest
+   digits that read back as the same float64, so both sides are compared as float64 when the encoding is not exact) *)
+Definition agrees_event (enc : N -> N) (st : state) (ws : N) (ev : event) (o : obs) : bool * wstate :=
+  let '(w', r) := step_event (st ws) ev in
+  ((match r with
        | Rejected => negb (o_ok o) && list_eqb pair_eqb [] (o_newids o)
                      && rows_eqb [] (o_arg o) && rows_eqb [] (o_creates o) && rows_eqb [] (o_updates o) && rows_eqb [] (o_recs o)
        | Accepted ev' rep =>
@@ -219,11 +231,20 @@ Fixpoint agrees_from (st : state) (t : trace) : bool :=
               records are then not compared, and the command processor answers with an error instead of NewIDs *)
            let clash := existsb (fun x => memb x (w_recs (st ws))) (ids (e_creates ev')) || negb (nodupb (ids (e_creates ev'))) in
            o_ok o
-           && (list_eqb pair_eqb (sort_pairs rep) (o_newids o) || (clash && list_eqb pair_eqb [] (o_newids o)))
+           && (list_eqb pair_eqb (map (fun p => (fst p, enc (snd p))) (sort_pairs rep)) (map (fun p => (fst p, enc (snd p))) (o_newids o)) || (clash && list_eqb pair_eqb [] (o_newids o)))
            && rows_eqb (e_arg ev') (o_arg o) && rows_eqb (e_creates ev') (o_creates o)
            && rows_eqb (e_updates ev') (o_updates o)
            && (clash || rows_eqb (e_creates ev') (o_recs o))
-       end) && agrees_from (upd st ws w') rest
+       end), w').
+
+Fixpoint agrees_from (st : state) (t : trace) : bool :=
+  match t with
+  | [] => true
+  | ORestart :: rest => agrees_from (step_gen c04_arg_updates_on_sync c04_plans_shared st IRestart) rest
+  | OEvent ws ev o :: rest =>
+      let '(ok, w') := agrees_event (fun x => x) st ws ev o in ok && agrees_from (upd st ws w') rest
+  | OEventV2 ws ev o :: rest =>
+      let '(ok, w') := agrees_event apiv2_number st ws ev o in ok && agrees_from (upd st ws w') rest
   end.
 Definition agrees (t : trace) : bool := agrees_from st_init t.
 
@@ -275,16 +296,25 @@ Definition storage_id (x : N) : bool := negb (x =? 0) && negb (is_raw x).
 (* substitution: every declared raw ID got a storage ID, every occurrence of it (IDs, parents, refs; argument,
    creates, updates) is that storage ID, everything else is untouched, and the reported NewIDs are exactly the
    stored IDs of the declared non-singleton rows *)
-Definition subst_ok (ev : event) (o : obs) : bool :=
+(* [refused] = IRecords.Apply had to refuse the event: one of its creates carries an ID that the workspace's log
+   already holds, or two of them carry one ID (whether that is the system's fault is judged by fresh_ok /
+   assigned_fresh / new_event_ok, not here; an explicit ID chosen by a sync client is the client's).  The command
+   then ends with an error: no NewIDs are reported, and the records are what they were. *)
+Definition apply_refused (seen : list N) (o : obs) : bool :=
+  existsb (fun x => memb x seen) (ids (o_creates o)) || negb (nodupb (ids (o_creates o))).
+
+Definition subst_ok_gen (refused : bool) (ev : event) (o : obs) : bool :=
   let ins := e_arg ev ++ e_creates ev in
   let sts := o_arg o ++ o_creates o in
   let mu := declared ins sts in
   Nat.eqb (length (o_arg o)) (length (e_arg ev)) && Nat.eqb (length (o_creates o)) (length (e_creates ev))
   && forallb (fun p => storage_id (snd p)) mu
   && rows_ok mu ins sts && rows_ok mu (e_updates ev) (o_updates o)
-  && list_eqb pair_eqb (sort_pairs (expected_newids false (e_arg ev) (o_arg o) ++ expected_newids true (e_creates ev) (o_creates o)))
-                       (sort_pairs (o_newids o))
-  && rows_eqb (o_creates o) (o_recs o).
+  && (list_eqb pair_eqb (sort_pairs (expected_newids false (e_arg ev) (o_arg o) ++ expected_newids true (e_creates ev) (o_creates o)))
+                        (sort_pairs (o_newids o))
+      || (refused && list_eqb pair_eqb [] (o_newids o)))
+  && (rows_eqb (o_creates o) (o_recs o) || refused).
+Definition subst_ok := subst_ok_gen false.
 
 (* freshness: generated IDs are user IDs (not null, raw or reserved), pairwise distinct, and none was ever
    stored in this workspace before (seen = every argument/create ID logged earlier, explicit or generated) *)
@@ -321,7 +351,13 @@ Fixpoint satisfies_from (seen : N -> list N) (t : trace) : bool :=
   | ORestart :: rest => satisfies_from seen rest
   | OEvent ws ev o :: rest =>
       if o_ok o then
-        subst_ok ev o && new_event_ok ev o && fresh_ok (seen ws) o
+        subst_ok_gen (apply_refused (seen ws) o) ev o && new_event_ok ev o && fresh_ok (seen ws) o
+        && assigned_fresh (seen ws) (e_arg ev ++ e_creates ev) (o_arg o ++ o_creates o)
+        && satisfies_from (fun k => if k =? ws then seen ws ++ ids (o_creates o) ++ ids (o_arg o) else seen k) rest
+      else satisfies_from seen rest
+  | OEventV2 ws ev o :: rest =>
+      if o_ok o then
+        subst_ok_gen (apply_refused (seen ws) o) ev o && new_event_ok ev o && fresh_ok (seen ws) o
         && assigned_fresh (seen ws) (e_arg ev ++ e_creates ev) (o_arg o ++ o_creates o)
         && satisfies_from (fun k => if k =? ws then seen ws ++ ids (o_creates o) ++ ids (o_arg o) else seen k) rest
       else satisfies_from seen rest
